@@ -1117,17 +1117,18 @@ def c04(tier, seed):
             out.append(layout_enum(c.pid(), sh, dname, repr_, "both" if form % 2 == 0 else "po"))
     # (A4) more variants than a signed one-byte tag can number: the inferred discriminant type has to widen by COUNT
     # (130 variants: 0..=129 leaves i8; starting at -3 it still fits; starting at 100 it leaves u8 as well)
-    for start, repr_, md in ((None, None, "both"), (-3, "i16", "po"), (100, "u16", "both")):
-        if tier == "quick" and start is not None:
+    for start, repr_, md in ((None, None, "both"), (-3, "i16", "po"), (100, "u16", "both"), (-128, "i8", "both"), (200, "u8", "po")):
+        if tier == "quick" and start is not None and repr_ not in ("i8",):
             continue
         vs = []
-        for i in range(130):
+        nvar = 140 if repr_ == "i8" else (56 if repr_ == "u8" else 130)      # i8: -128..=11 ; u8: 200..=255 : the counted offset
+        for i in range(nvar):                                                 # exceeds what the repr type can hold as a literal
             d = start if i == 0 else None
-            if i in (0, 129):
+            if i in (0, nvar - 1):
                 vs.append(Variant("V%d" % i, "tuple", [Field(None, "u8", ord={})], discr=d))
             else:
                 vs.append(Variant("V%d" % i, "unit", [], discr=d))
-        P = ord_program(c.pid(), "enum", "E", vs, md, [], 0, "layout enum with 130 variants first=%s repr=%s mode=%s" % (start, repr_, md), prop="C04", repr_=repr_)
+        P = ord_program(c.pid(), "enum", "E", vs, md, [], 0, "layout enum with %d variants first=%s repr=%s mode=%s" % (nvar, start, repr_, md), prop="C04", repr_=repr_)
         P.tags["no_verus"] = "130 x 130 case split: decided by Kani (loop-free, full domain)"
         out.append(P)
     # (B) concrete payload grid (Kani, real layouts)
